@@ -6,6 +6,7 @@ import (
 	"bytes"
 	"fmt"
 	"io"
+	"log"
 	"log/slog"
 	"os"
 	"runtime"
@@ -52,6 +53,12 @@ type Case struct {
 	EOFAt     []int `json:"eof_at_calls"`     // reader calls that report a single EOF instead of data
 	LongPause int   `json:"long_pause_at"`    // reader call that first sleeps longer than the tolerance (0 = none)
 	IdleEach  int   `json:"idle_read_each"`   // every n-th reader call returns (0, nil): an idle line (0 = never)
+	// IdleBurstAt > 0: from that reader call on, IdleBurstLen consecutive calls return (0, nil) - a polled
+	// serial line that stays silent for many polling intervals - and then the data goes on.
+	IdleBurstAt  int `json:"idle_burst_at_call"`
+	IdleBurstLen int `json:"idle_burst_len"`
+	// SysLog: the configuration carries a system log (every real application sets one).
+	SysLog bool `json:"system_log"`
 }
 
 type scriptReader struct {
@@ -66,6 +73,8 @@ type scriptReader struct {
 	longPause int
 	tol       time.Duration
 	idleEach  int
+	burstAt   int
+	burstLen  int
 	dataSince bool // a data-bearing read has happened since the last injected EOF
 }
 
@@ -86,6 +95,9 @@ func (r *scriptReader) Read(p []byte) (int, error) {
 		// machine stall between them could legitimately make it give up (its decision uses the wall clock)
 		r.dataSince = false
 		return 0, io.EOF
+	}
+	if r.burstAt > 0 && r.call >= r.burstAt && r.call < r.burstAt+r.burstLen {
+		return 0, nil
 	}
 	if r.idleEach > 0 && r.call%r.idleEach == 0 {
 		return 0, nil // nothing to read just now (allowed by io.Reader, e.g. a serial line with a read time-out)
@@ -193,6 +205,11 @@ func check(c Case, o *stats.Obs) error {
 	rd := &scriptReader{data: input, chunks: c.Chunks, pauseEach: c.PauseEach, pauseKind: c.PauseKind, eofWith: c.EOFWith}
 	cfg := &jsonconfig.Config{}
 	rd.idleEach = c.IdleEach
+	rd.burstAt, rd.burstLen = c.IdleBurstAt, c.IdleBurstLen
+	if c.SysLog {
+		cfg.SystemLog = log.New(io.Discard, "", 0)
+		o.Class("system-log-set")
+	}
 	if c.EOFTolMs > 0 {
 		cfg.TimeoutOnEOFMilliSeconds = uint(c.EOFTolMs)
 		rd.tol = time.Duration(c.EOFTolMs) * time.Millisecond
@@ -287,6 +304,9 @@ func check(c Case, o *stats.Obs) error {
 	if c.IdleEach > 0 {
 		o.Class("idle-reads")
 	}
+	if c.IdleBurstAt > 0 && rd.call >= c.IdleBurstAt+c.IdleBurstLen {
+		o.Class("idle-burst>=100-then-data")
+	}
 	return nil
 }
 
@@ -323,6 +343,11 @@ func gen1(t *rapid.T) Case {
 	c.YieldDens = rapid.SampledFrom([]int{3, 16, 64}).Draw(t, "yieldDensity")
 	if rapid.IntRange(0, 4).Draw(t, "idleReads") == 0 {
 		c.IdleEach = rapid.IntRange(2, 5).Draw(t, "idleEach")
+	}
+	c.SysLog = rapid.Bool().Draw(t, "systemLog")
+	if rapid.IntRange(0, 5).Draw(t, "idleBurst") == 3 {
+		c.IdleBurstAt = rapid.IntRange(1, 12).Draw(t, "idleBurstAt")
+		c.IdleBurstLen = rapid.SampledFrom([]int{99, 100, 101, 150, 400}).Draw(t, "idleBurstLen")
 	}
 	if rapid.IntRange(0, 7).Draw(t, "transientEOF") == 0 {
 		c.EOFTolMs = 30
@@ -361,6 +386,7 @@ func genStall(t *rapid.T) Case {
 	for i := 0; i < n; i++ {
 		c.Stream.Segs = append(c.Stream.Segs, gen.Segment{Kind: "valid", Data: gen.ValidFrame(t, 40)})
 	}
+	c.SysLog = rapid.Bool().Draw(t, "systemLog")
 	c.Consumers = []Consumer{{Cap: rapid.SampledFrom([]int{0, 1}).Draw(t, "cap"), Mode: 3, K: rapid.IntRange(0, 1).Draw(t, "stallAt")}, {Cap: 1}}
 	return c
 }
